@@ -207,4 +207,59 @@ def parseRequest (algOk : α → Bool) (v20 : α) (truthy : α → Bool) (row : 
       if ts < now - 86400 - (cfg.slack : Int) then .instantTooOld else
       if now + 86400 + (cfg.slack : Int) ≤ ts then .instantTooNew else .ok
 
+/-! ### State across calls on one receiver: the metadata store and `Entity.reload_metadata`
+
+  `MetadataStore` is an ordered collection of sources; `MetadataStore.__getitem__` answers from the
+  first source that knows the entity (and only from it).  `MetadataStore.reload(spec)` empties the
+  store and imports `spec`; if the import raises, the previous store is put back and
+  `reload_metadata` reports `False`. -/
+
+/-- One metadata source: the entities it describes with their signing certificates. -/
+structure Source (α κ : Type) where
+  entities : List (α × List (Cert κ))
+deriving Repr
+
+/-- `MetaData.certs(issuer, "any", "signing")` over the store: the first source that lists the
+    issuer decides; unknown issuer (`KeyError`) = no certificate. -/
+def lookupCerts (srcs : List (Source α κ)) (issuer : α) : List (Cert κ) :=
+  match srcs.findSome? (fun s => (s.entities.find? (fun e => decide (e.1 = issuer))).map (·.2)) with
+  | some cs => cs
+  | none => []
+
+/-- One request delivered to the receiver. -/
+structure Recv (α κ : Type) where
+  row : KindRow
+  cfg : Cfg α
+  now : Int
+  issuer : α
+  msg : Msg α κ
+
+/-- One call on the long-lived receiver.  `reload none` = a specification whose import raises. -/
+inductive Step (α κ : Type) where
+  | reload (spec : Option (List (Source α κ)))
+  | recv (r : Recv α κ)
+
+inductive StepOut where
+  | reloaded
+  | reloadFailed
+  | verdict (v : Verdict)
+deriving DecidableEq, Repr
+
+/-- The receiver's answers along a history, starting from the store `srcs`. -/
+def runHistory (algOk : α → Bool) (v20 : α) (truthy : α → Bool) :
+    List (Source α κ) → List (Step α κ) → List StepOut
+  | _, [] => []
+  | _, .reload (some new) :: rest => .reloaded :: runHistory algOk v20 truthy new rest
+  | srcs, .reload none :: rest => .reloadFailed :: runHistory algOk v20 truthy srcs rest
+  | srcs, .recv r :: rest =>
+    .verdict (parseRequest algOk v20 truthy r.row r.cfg (lookupCerts srcs r.issuer) r.now r.msg)
+      :: runHistory algOk v20 truthy srcs rest
+
+/-- What the harness observes per step: for a request whether it was processed, for a reload
+    whether it was reported successful. -/
+def StepOut.flag : StepOut → Bool
+  | .reloaded => true
+  | .reloadFailed => false
+  | .verdict v => decide (v = .ok)
+
 end Request
